@@ -129,3 +129,40 @@ Theorem v1_defrag_preserves_lookup_not_larger_inv :
                                    blen (fst st') = blen (fst st)) /\
       (o = None -> v1_live_sum st = 0).
 Proof. exact v1_defrag_correct. Qed.
+
+(* ---- caches: several bundles (CompactCacheBase picks the bundle (level, first column, first row) of a tile
+   coordinate; `cop` = CStore batch-with-coordinates | CRemove coordinate; `cache_ok Inv dlen b c`: bundle keys
+   distinct, every bundle satisfies Inv and is at most b bytes long) *)
+
+(* every history of store_tiles / remove_tile calls on a cache - any tile coordinates, any number of bundles and
+   levels, batches that span bundles - runs without error and leaves only valid bundles *)
+Theorem v2_cache_inv_reachable :
+  forall ops : list cop,
+    Forall (cop_ok two24) ops -> B2 + cops_bytes ops < two40 ->
+    exists c, v2c_run ops = Some c /\ cache_ok v2_Inv blen (B2 + cops_bytes ops) c.
+Proof. exact v2c_history_ok. Qed.
+
+Theorem v1_cache_inv_reachable :
+  forall ops : list cop,
+    Forall (cop_ok two32) ops -> B1 + cops_bytes ops < two40 ->
+    exists c, v1c_run ops = Some c /\ cache_ok v1_Inv v1_dlen (B1 + cops_bytes ops) c.
+Proof. exact v1c_history_ok. Qed.
+
+(* defrag_compact_cache with ANY threshold setting (skip is an arbitrary decision per bundle, so float rounding of
+   the threshold test is covered): no error, every tile address of the cache returns the same bytes as before,
+   every remaining bundle is valid, and no bundle file is longer than before *)
+Theorem v2_cache_defrag_changes_no_tile :
+  forall skip c b, b < two40 -> cache_ok v2_Inv blen b c ->
+    exists c', v2c_defrag skip c = Some c' /\
+      (forall coord, v2c_load c' coord = v2c_load c coord) /\
+      cache_ok v2_Inv blen b c' /\
+      (forall k f', In (k, f') c' -> exists f, In (k, f) c /\ blen f' <= blen f).
+Proof. exact v2c_defrag_ok. Qed.
+
+Theorem v1_cache_defrag_changes_no_tile :
+  forall skip c b, b < two40 -> cache_ok v1_Inv v1_dlen b c ->
+    exists c', v1c_defrag skip c = Some c' /\
+      (forall coord, v1c_load c' coord = v1c_load c coord) /\
+      cache_ok v1_Inv v1_dlen b c' /\
+      (forall k st', In (k, st') c' -> exists st, In (k, st) c /\ v1_dlen st' <= v1_dlen st).
+Proof. exact v1c_defrag_ok. Qed.
